@@ -230,8 +230,10 @@ async fn run_async(data: &[u8]) -> FuzzOutcome {
     while peer.next_raw(0).await.is_ok() {}
     out.ports_learned = learned.len();
     let tasks1 = tokio::runtime::Handle::current().metrics().num_alive_tasks();
-    // Each accepted port may own one reader task, each frame at most a constant number of tasks.
-    if tasks1 > tasks0 + 16 + 4 * out.frames {
+    // One frame can carry chunk_size/4 <= 16 port requests, each of which owns a helper task
+    // until it is answered, and an accepted port owns a reader task: tasks are bounded by a
+    // constant per frame.
+    if tasks1 > tasks0 + 32 + 24 * out.frames {
         out.fail = Some(("C08/fuzz/unbounded-tasks".into(), format!("{} frames created {} live tasks", out.frames, tasks1 - tasks0)));
         return out;
     }
